@@ -407,7 +407,7 @@ fn judge_map(cx: &Ctx<'_>, rank: &[usize], r: &Ref, map: &TMap, fell_back: bool,
     for (k, got) in queried {
         if *k == UNKNOWN {
             if *got != 0.0 {
-                cx.col.offer("C10.query", feats(&[("shape", "unknown-peer-nonzero".into()), ("path", path.into())]), rank, || wit(format!("get_trust(never-mentioned id) = {got}")));
+                cx.col.offer("C10.query", feats(&[("shape", "unknown-peer-nonzero".into())]), rank, || wit(format!("get_trust(never-mentioned id) = {got}")));
             }
         } else if let Some(v) = map.get(k) {
             if v.to_bits() != got.to_bits() && !(v.is_nan() && got.is_nan()) {
@@ -419,40 +419,42 @@ fn judge_map(cx: &Ctx<'_>, rank: &[usize], r: &Ref, map: &TMap, fell_back: bool,
     }
 }
 
-/// Monotonicity clauses for the edge `prev --op--> cur`.
-#[allow(clippy::too_many_arguments)]
-fn judge_edge(cx: &Ctx<'_>, rank: &[usize], r_before: &Ref, op: &Op, prev: &TMap, cur: &TMap, nm: Namer, hist: &dyn Fn() -> Value) {
+/// A candidate violation of a comparison clause (monotonicity / severity).
+struct CmpViol {
+    clause: &'static str,
+    feats: BTreeMap<String, String>,
+    a: f64,
+    b: f64,
+    what: String,
+}
+/// Differences smaller than this are re-checked on fresh engines before they are reported (see `confirm_*`):
+/// the subject stops iterating at `diff < 1e-4`, and when `diff` of some iteration equals 1e-4 up to rounding, the
+/// HashMap iteration order (random per map) decides whether one more round is made. Such a flip moves every score
+/// by ~1e-5 and is not reproducible; a genuine violation reproduces on every fresh engine.
+const SMALL: f64 = 1e-3;
+const CONFIRMATIONS: usize = 5;
+
+/// Monotonicity clauses for the edge `prev --op--> cur`. Tallies only when `cx` is given (first evaluation).
+fn edge_check(cx: Option<&Ctx<'_>>, r_before: &Ref, op: &Op, prev: &TMap, cur: &TMap, nm: Namer) -> Option<CmpViol> {
+    let tally = |k: &str| {
+        if let Some(cx) = cx {
+            cx.tally(k)
+        }
+    };
     let (p, dir, prior): (u32, i8, String) = match *op {
         Op::Stat(p, Stat::Correct) => (p, 1, if r_before.stats.contains_key(&p) { "some" } else { "none" }.into()),
         Op::Stat(p, s) if s.negative() => (p, -1, if r_before.stats.contains_key(&p) { "some" } else { "none" }.into()),
-        Op::Local(x, p, b) => {
-            let pe = if r_before.edges.contains_key(&(x, p)) { "some" } else { "none" };
-            (p, if b { 1 } else { -1 }, format!("{}{}", pe, if x == p { ",self-rating" } else { "" }))
-        }
-        _ => return,
+        Op::Local(_, p, b) => (p, if b { 1 } else { -1 }, String::new()),
+        _ => return None,
     };
     let (Some(a), Some(b)) = (prev.get(&p), cur.get(&p)) else {
-        cx.tally("edge:peer-not-scored-on-both-sides(not judged)");
-        return;
+        tally("edge:peer-not-scored-on-both-sides(not judged)");
+        return None;
     };
-    let is_stat = matches!(op, Op::Stat(..));
-    if !is_stat {
-        // pairwise ratings are not the "reports" of the statement (weakest reading): a new rater dilutes everybody, and
-        // a changed node set restarts the iteration elsewhere inside its 1e-4 convergence band. Tallied, not judged.
-        let d = if *b > *a + TOL_MONO { "up" } else if *b < *a - TOL_MONO { "down" } else { "same" };
-        cx.tally(&format!("pairwise(not judged):{}:{}", entry_name(op), d));
-        return;
-    }
-    if !r_before.known().contains(&p) {
-        // p had a score only as an anchor the teleport step inserted; the report changes the node set (see above)
-        cx.tally("edge:peer-not-in-node-set-before-report(not judged)");
-        return;
-    }
     let (a, b) = (*a, *b);
     if !a.is_finite() || !b.is_finite() {
-        return;
+        return None;
     }
-    cx.distinct.eval();
     let moved = if b > a + TOL_MONO {
         "up"
     } else if b < a - TOL_MONO {
@@ -460,35 +462,41 @@ fn judge_edge(cx: &Ctx<'_>, rank: &[usize], r_before: &Ref, op: &Op, prev: &TMap
     } else {
         "same"
     };
-    cx.distinct.outcome(&(entry_name(op), &prior, moved));
-    cx.tally(&format!("edge:{}:{}", entry_name(op), moved));
+    if !matches!(op, Op::Stat(..)) {
+        // pairwise ratings are not the "reports" of the statement (weakest reading): a new rater dilutes everybody, and
+        // a changed node set restarts the iteration elsewhere inside its 1e-4 convergence band. Tallied, not judged.
+        tally(&format!("pairwise(not judged):{}:{}", entry_name(op), moved));
+        return None;
+    }
+    if !r_before.known().contains(&p) {
+        // p had a score only as an anchor the teleport step inserted; the report changes the node set (see above)
+        tally("edge:peer-not-in-node-set-before-report(not judged)");
+        return None;
+    }
+    if let Some(cx) = cx {
+        cx.distinct.eval();
+        cx.distinct.outcome(&(entry_name(op), &prior, moved));
+        cx.tally(&format!("edge:{}:{}", entry_name(op), moved));
+    }
     let reg = regime(prev.len().max(cur.len()));
-    let prior_key = "prior_stats";
-    let wit = |what: String| {
-        (json!({"history": hist(), "peer": nm(p), "score_without_report": a, "score_with_report": b,
-                "computed_without_report": map_json(prev, nm), "computed_with_report": map_json(cur, nm),
-                "note": "last element of history is the report; both maps come from compute_global_trust() on the real engine"}), what)
-    };
+    let f = feats(&[("entry", entry_name(op)), ("prior_stats", prior.clone()), ("regime", reg.into())]);
     if dir > 0 && moved == "down" {
-        cx.col.offer("C10.mono-success", feats(&[("entry", entry_name(op)), (prior_key, prior.clone()), ("regime", reg.into())]), rank, || {
-            wit(format!("{} lowered {}'s score {a} -> {b}", entry_name(op), nm(p)))
-        });
+        return Some(CmpViol { clause: "C10.mono-success", feats: f, a, b, what: format!("{} lowered {}'s score {a} -> {b}", entry_name(op), nm(p)) });
     }
     if dir < 0 && moved == "up" {
-        cx.col.offer("C10.mono-failure", feats(&[("entry", entry_name(op)), (prior_key, prior.clone()), ("regime", reg.into())]), rank, || {
-            wit(format!("{} raised {}'s score {a} -> {b}", entry_name(op), nm(p)))
-        });
+        return Some(CmpViol { clause: "C10.mono-failure", feats: f, a, b, what: format!("{} raised {}'s score {a} -> {b}", entry_name(op), nm(p)) });
     }
+    None
 }
 
-fn judge_severity(cx: &Ctx<'_>, rank: &[usize], op: &Op, plain: Stat, with_failure: &TMap, with_severe: &TMap, nm: Namer, hist: &dyn Fn() -> Value) {
-    let Op::Stat(p, s) = *op else { return };
-    let (Some(f), Some(c)) = (with_failure.get(&p), with_severe.get(&p)) else { return };
+/// `op` is CorruptedData / ProtocolViolation for p; `with_failure` is the map of the same prefix + a plain failure.
+fn severity_check(cx: Option<&Ctx<'_>>, op: &Op, plain: Stat, with_failure: &TMap, with_severe: &TMap, nm: Namer) -> Option<CmpViol> {
+    let Op::Stat(p, s) = *op else { return None };
+    let (Some(f), Some(c)) = (with_failure.get(&p), with_severe.get(&p)) else { return None };
     let (f, c) = (*f, *c);
     if !f.is_finite() || !c.is_finite() {
-        return;
+        return None;
     }
-    cx.distinct.eval();
     let rel = if c < f - TOL_MONO {
         "costs-more"
     } else if c > f + TOL_MONO {
@@ -496,15 +504,21 @@ fn judge_severity(cx: &Ctx<'_>, rank: &[usize], op: &Op, plain: Stat, with_failu
     } else {
         "costs-same"
     };
-    cx.distinct.outcome(&("severity", s.kind(), plain.kind(), rel));
-    cx.tally(&format!("severity:{}-vs-{}:{}", s.kind(), plain.kind(), rel));
+    if let Some(cx) = cx {
+        cx.distinct.eval();
+        cx.distinct.outcome(&("severity", s.kind(), plain.kind(), rel));
+        cx.tally(&format!("severity:{}-vs-{}:{}", s.kind(), plain.kind(), rel));
+    }
     if rel == "costs-less" {
-        cx.col.offer("C10.severity", feats(&[("entry", entry_name(op)), ("plain_failure", plain.kind().into()), ("regime", regime(with_severe.len()).into())]), rank, || {
-            (json!({"history": hist(), "peer": nm(p), "score_after_plain_failure_instead": f, "score_after_this_report": c,
-                    "note": format!("same prefix, last report replaced by {} for the comparison", plain.kind())}),
-             format!("{} leaves {} at {c}, a plain {} at {f}", s.kind(), nm(p), plain.kind()))
+        return Some(CmpViol {
+            clause: "C10.severity",
+            feats: feats(&[("entry", entry_name(op)), ("plain_failure", plain.kind().into()), ("regime", regime(with_severe.len()).into())]),
+            a: f,
+            b: c,
+            what: format!("{} leaves {} at {c}, a plain {} at {f}", s.kind(), nm(p), plain.kind()),
         });
     }
+    None
 }
 
 fn maps_differ(a: &TMap, b: &TMap, tol: f64) -> Option<(u32, f64, f64)> {
@@ -546,8 +560,11 @@ struct Replayed {
     queried: Vec<(u32, f64)>,
 }
 
-/// Fresh engine, replay `ops` (compute after every op when `eager`), observe.
-async fn replay(cx: &Ctx<'_>, anchors: &[u32], ops: &[Op], eager: bool) -> Result<Replayed, (String, String)> {
+const LAZY: usize = usize::MAX;
+
+/// Fresh engine, replay `ops`, observe. `compute_global_trust()` runs before the first operation when
+/// `eager_from == 0`, after operation i (0-based) whenever `i + 1 >= eager_from`, and always after the last one.
+async fn replay(cx: &Ctx<'_>, anchors: &[u32], ops: &[Op], eager_from: usize) -> Result<Replayed, (String, String)> {
     let e = EigenTrustEngine::new(anchors.iter().map(|a| nid(*a)).collect::<HashSet<_>>());
     let mut r = Ref::default();
     for a in anchors {
@@ -556,12 +573,14 @@ async fn replay(cx: &Ctx<'_>, anchors: &[u32], ops: &[Op], eager: bool) -> Resul
     }
     let mut r_before = r.clone();
     let mut prev = TMap::new();
-    let (mut cur, mut fell_back) = if eager || ops.is_empty() { compute(cx, &e).await.map_err(|m| ("compute_global_trust".to_string(), m))? } else { (TMap::new(), false) };
+    let (mut cur, mut fell_back) = if eager_from == 0 || ops.is_empty() { compute(cx, &e).await.map_err(|m| ("compute_global_trust".to_string(), m))? } else { (TMap::new(), false) };
     for (i, op) in ops.iter().enumerate() {
-        r_before = r.clone();
+        if i + 1 == ops.len() {
+            r_before = r.clone();
+        }
         apply(&e, op).await.map_err(|m| (entry_name(op), m))?;
         r.apply(op);
-        if eager || i + 1 == ops.len() {
+        if i + 1 >= eager_from || i + 1 == ops.len() {
             prev = std::mem::take(&mut cur);
             (cur, fell_back) = compute(cx, &e).await.map_err(|m| ("compute_global_trust".to_string(), m))?;
         }
@@ -574,6 +593,155 @@ async fn replay(cx: &Ctx<'_>, anchors: &[u32], ops: &[Op], eager: bool) -> Resul
     queried.push((UNKNOWN, catch(|| e.get_trust(&nid(UNKNOWN))).map_err(|m| ("get_trust".to_string(), m))?));
     let (recomputed, _) = compute(cx, &e).await.map_err(|m| ("compute_global_trust".to_string(), m))?;
     Ok(Replayed { r_before, r, prev, cur, recomputed, fell_back, queried })
+}
+
+/// largest per-node difference; infinite when the key sets differ or a value is not finite
+fn max_diff(a: &TMap, b: &TMap) -> f64 {
+    if a.len() != b.len() {
+        return f64::INFINITY;
+    }
+    let mut m = 0.0f64;
+    for (k, v) in a {
+        match b.get(k) {
+            Some(w) if v.is_finite() && w.is_finite() => m = m.max((v - w).abs()),
+            _ => return f64::INFINITY,
+        }
+    }
+    m
+}
+
+fn report_panic(cx: &Ctx<'_>, rank: &[usize], entry: String, msg: String, hist: &dyn Fn() -> Value) {
+    cx.col.offer("C10.nopanic", feats(&[("entry", entry.clone())]), rank, || (json!({"history": hist(), "panic": msg}), format!("{entry} panicked: {msg}")));
+}
+
+/// All clauses for the history `EigenTrustEngine::new(anchors); ops`, whose last operation is the judged edge.
+/// Comparison clauses with a small margin are confirmed on fresh engines before they are reported.
+async fn analyse(cx: &Ctx<'_>, rank: &[usize], anchors: &[u32], ops: &[Op], eager_from: usize, nm: Namer<'_>, hist: &dyn Fn() -> Value) -> Option<Replayed> {
+    let rp = match replay(cx, anchors, ops, eager_from).await {
+        Ok(rp) => rp,
+        Err((entry, msg)) => {
+            report_panic(cx, rank, entry, msg, hist);
+            return None;
+        }
+    };
+    judge_map(cx, rank, &rp.r, &rp.cur, rp.fell_back, &rp.queried, nm, hist);
+    let path = if rp.fell_back { "timeout-fallback" } else { "computed" };
+    // a second computation on the unchanged engine
+    if let Some((k, a, b)) = maps_differ(&rp.cur, &rp.recomputed, TOL_EQUAL) {
+        let mut confirmed = max_diff(&rp.cur, &rp.recomputed) >= SMALL;
+        if !confirmed {
+            confirmed = true;
+            for _ in 0..CONFIRMATIONS {
+                match replay(cx, anchors, ops, eager_from).await {
+                    Ok(x) if maps_differ(&x.cur, &x.recomputed, TOL_EQUAL).is_none() => {
+                        confirmed = false;
+                        break;
+                    }
+                    _ => {}
+                }
+            }
+        }
+        if confirmed {
+            cx.col.offer("C10.equal", feats(&[("shape", "second-computation-on-unchanged-engine-differs".into()), ("path", path.into())]), rank, || {
+                (json!({"history": hist(), "first": map_json(&rp.cur, nm), "second": map_json(&rp.recomputed, nm)}), format!("{}: {a} then {b} without any operation in between", nm(k)))
+            });
+        } else {
+            cx.tally("not-reproducible:iteration-count-flips-with-hash-order(second computation)");
+        }
+    }
+    let Some(op) = ops.last() else { return Some(rp) };
+    if let Some(v) = edge_check(Some(cx), &rp.r_before, op, &rp.prev, &rp.cur, nm) {
+        let mut confirmed = (v.b - v.a).abs() >= SMALL;
+        if !confirmed {
+            confirmed = true;
+            for _ in 0..CONFIRMATIONS {
+                let again = match replay(cx, anchors, ops, eager_from).await {
+                    Ok(x) => edge_check(None, &x.r_before, op, &x.prev, &x.cur, nm).map(|w| w.clause == v.clause).unwrap_or(false),
+                    Err(_) => false,
+                };
+                if !again {
+                    confirmed = false;
+                    break;
+                }
+            }
+        }
+        if confirmed {
+            let Op::Stat(p, _) = *op else { unreachable!() };
+            cx.col.offer(v.clause, v.feats.clone(), rank, || {
+                (json!({"history": hist(), "peer": nm(p), "score_without_report": v.a, "score_with_report": v.b,
+                        "computed_without_report": map_json(&rp.prev, nm), "computed_with_report": map_json(&rp.cur, nm),
+                        "note": "last element of history is the report; both maps come from compute_global_trust() on the real engine"}), v.what.clone())
+            });
+        } else {
+            cx.tally("not-reproducible:iteration-count-flips-with-hash-order(monotonicity)");
+        }
+    }
+    if let Op::Stat(p, Stat::Corrupted | Stat::Violation) = *op {
+        // siblings: the same prefix with a plain failure (both plain variants) instead of the severe report
+        for plain in [Stat::Failed, Stat::Unavailable] {
+            let mut sib = ops.to_vec();
+            *sib.last_mut().unwrap() = Op::Stat(p, plain);
+            let s = match replay(cx, anchors, &sib, LAZY).await {
+                Ok(s) => s,
+                Err((entry, msg)) => {
+                    report_panic(cx, rank, entry, msg, hist);
+                    continue;
+                }
+            };
+            if let Some(v) = severity_check(Some(cx), op, plain, &s.cur, &rp.cur, nm) {
+                let mut confirmed = (v.b - v.a).abs() >= SMALL;
+                if !confirmed {
+                    confirmed = true;
+                    for _ in 0..CONFIRMATIONS {
+                        let again = match (replay(cx, anchors, &sib, LAZY).await, replay(cx, anchors, ops, LAZY).await) {
+                            (Ok(x), Ok(y)) => severity_check(None, op, plain, &x.cur, &y.cur, nm).is_some(),
+                            _ => false,
+                        };
+                        if !again {
+                            confirmed = false;
+                            break;
+                        }
+                    }
+                }
+                if confirmed {
+                    cx.col.offer(v.clause, v.feats.clone(), rank, || {
+                        (json!({"history": hist(), "peer": nm(p), "score_after_plain_failure_instead": v.a, "score_after_this_report": v.b,
+                                "note": format!("same prefix, last report replaced by {} for the comparison", plain.kind())}), v.what.clone())
+                    });
+                } else {
+                    cx.tally("not-reproducible:iteration-count-flips-with-hash-order(severity)");
+                }
+            }
+        }
+    }
+    Some(rp)
+}
+
+/// Two histories that made the same statements: maps must agree (merge callback of the BFS, family B order test).
+async fn judge_same_statements(cx: &Ctx<'_>, rank: &[usize], anchors: &[u32], ha: &[Op], hb: &[Op], nm: Namer<'_>, describe: &dyn Fn() -> Value) {
+    let (Ok(ra), Ok(rb)) = (replay(cx, anchors, ha, LAZY).await, replay(cx, anchors, hb, LAZY).await) else { return };
+    cx.distinct.eval();
+    let Some((k, x, y)) = maps_differ(&ra.cur, &rb.cur, TOL_EQUAL) else { return };
+    let mut confirmed = max_diff(&ra.cur, &rb.cur) >= SMALL;
+    if !confirmed {
+        // sample both histories on fresh engines; if any pair of samples agrees the difference is the iteration-count flip
+        let (mut sa, mut sb) = (vec![ra.cur.clone()], vec![rb.cur.clone()]);
+        for _ in 0..CONFIRMATIONS {
+            if let (Ok(a2), Ok(b2)) = (replay(cx, anchors, ha, LAZY).await, replay(cx, anchors, hb, LAZY).await) {
+                sa.push(a2.cur);
+                sb.push(b2.cur);
+            }
+        }
+        confirmed = !sa.iter().any(|a| sb.iter().any(|b| maps_differ(a, b, TOL_EQUAL).is_none()));
+    }
+    if confirmed {
+        let path = if ra.fell_back || rb.fell_back { "timeout-fallback" } else { "computed" };
+        cx.col.offer("C10.equal", feats(&[("shape", "same-reports-different-order-different-scores".into()), ("path", path.into())]), rank, || {
+            (json!({"histories": describe(), "computed_1": map_json(&ra.cur, nm), "computed_2": map_json(&rb.cur, nm)}), format!("{}: {x} vs {y} for histories that made the same statements", nm(k)))
+        });
+    } else {
+        cx.tally("not-reproducible:iteration-count-flips-with-hash-order(merge)");
+    }
 }
 
 fn bfs_name(i: u32) -> String {
@@ -641,36 +809,8 @@ fn run_bfs(cx: &Ctx<'_>, phase: usize, ops: &[Op], depth: usize, budget: &Budget
             let rank = mk_rank(h);
             let hist = || json!(hops.iter().map(|o| op_json(o, nm)).collect::<Vec<_>>());
             block_on(async {
-                let rp = match replay(cx, &[], &hops, true).await {
-                    Ok(rp) => rp,
-                    Err((entry, msg)) => {
-                        cx.col.offer("C10.nopanic", feats(&[("entry", entry.clone())]), &rank, || (json!({"history": hist(), "panic": msg}), format!("{entry} panicked: {msg}")));
-                        return None;
-                    }
-                };
-                judge_map(cx, &rank, &rp.r, &rp.cur, rp.fell_back, &rp.queried, nm, &hist);
-                let path = if rp.fell_back { "timeout-fallback" } else { "computed" };
-                if let Some((k, a, b)) = maps_differ(&rp.cur, &rp.recomputed, TOL_EQUAL) {
-                    cx.col.offer("C10.equal", feats(&[("shape", "second-computation-on-unchanged-engine-differs".into()), ("path", path.into())]), &rank, || {
-                        (json!({"history": hist(), "first": map_json(&rp.cur, nm), "second": map_json(&rp.recomputed, nm)}), format!("{}: {a} then {b} without any operation in between", nm(k)))
-                    });
-                }
-                if let Some(op) = hops.last() {
-                    judge_edge(cx, &rank, &rp.r_before, op, &rp.prev, &rp.cur, nm, &hist);
-                    if matches!(op, Op::Stat(_, Stat::Corrupted | Stat::Violation)) {
-                        let Op::Stat(p, _) = *op else { unreachable!() };
-                        // both plain-failure variants (FailedResponse, DataUnavailable) are siblings
-                        for plain in [Stat::Failed, Stat::Unavailable] {
-                            let mut sib = hops.clone();
-                            *sib.last_mut().unwrap() = Op::Stat(p, plain);
-                            match replay(cx, &[], &sib, false).await {
-                                Ok(s) => judge_severity(cx, &rank, op, plain, &s.cur, &rp.cur, nm, &hist),
-                                Err((entry, msg)) => cx.col.offer("C10.nopanic", feats(&[("entry", entry.clone())]), &rank, || (json!({"history": hist(), "panic": msg}), format!("{entry} panicked: {msg}"))),
-                            }
-                        }
-                    }
-                }
-                // outcome for coverage: which scores are zero / positive, and the order of the scores
+                let rp = analyse(cx, &rank, &[], &hops, 0, nm, &hist).await?;
+                // outcome for coverage: the scores (1e-6) in rank order
                 let mut order: Vec<(u32, i64)> = rp.cur.iter().map(|(k, v)| (*k, (v * 1e6).round() as i64)).collect();
                 order.sort_by_key(|x| (-(x.1), x.0));
                 cx.distinct.outcome(&("map", order));
@@ -682,19 +822,9 @@ fn run_bfs(cx: &Ctx<'_>, phase: usize, ops: &[Op], depth: usize, budget: &Budget
             // two different histories reached the same canonical state with different digests: compare with tolerance
             let ha: Vec<Op> = a.iter().map(|&i| ops[i]).collect();
             let hb: Vec<Op> = b.iter().map(|&i| ops[i]).collect();
-            block_on(async {
-                let (Ok(ra), Ok(rb)) = (replay(cx, &[], &ha, false).await, replay(cx, &[], &hb, false).await) else { return };
-                cx.tally("merge:digest-differs-recompared");
-                if let Some((k, x, y)) = maps_differ(&ra.cur, &rb.cur, TOL_EQUAL) {
-                    let rank = mk_rank(b);
-                    let path = if ra.fell_back || rb.fell_back { "timeout-fallback" } else { "computed" };
-                    cx.col.offer("C10.equal", feats(&[("shape", "same-reports-different-order-different-scores".into()), ("path", path.into())]), &rank, || {
-                        (json!({"history_1": ha.iter().map(|o| op_json(o, nm)).collect::<Vec<_>>(), "history_2": hb.iter().map(|o| op_json(o, nm)).collect::<Vec<_>>(),
-                                "computed_1": map_json(&ra.cur, nm), "computed_2": map_json(&rb.cur, nm)}),
-                         format!("{}: {x} vs {y} for histories that made the same statements", nm(k)))
-                    });
-                }
-            });
+            cx.tally("merge:digest-differs-recompared");
+            let describe = || json!({"history_1": ha.iter().map(|o| op_json(o, nm)).collect::<Vec<_>>(), "history_2": hb.iter().map(|o| op_json(o, nm)).collect::<Vec<_>>()});
+            block_on(judge_same_statements(cx, &mk_rank(b), &[], &ha, &hb, nm, &describe));
         },
     )
 }
@@ -826,8 +956,6 @@ fn main() {
         partners.sort();
         partners.dedup();
         let mut exts: Vec<Op> = stat_alphabet(&[1, big]).into_iter().map(|s| Op::Stat(p, s)).collect();
-        // plain failures first so that the severity siblings are available
-        exts.sort_by_key(|o| !matches!(o, Op::Stat(_, Stat::Failed | Stat::Unavailable)));
         for &q in &partners {
             for s in [true, false] {
                 exts.push(Op::Local(q, p, s));
@@ -837,7 +965,6 @@ fn main() {
             }
         }
         exts.extend([Op::AddAnchor(p), Op::RemAnchor(p), Op::Remove(p)]);
-        let mut failed_map: Vec<(Stat, TMap)> = Vec::new();
         let describe = |ext: Option<&Op>| {
             json!({"base": {"shape": format!("{:?}", b.shape), "n": b.n, "constructor_anchors": b.anchors.iter().map(|a| nm(*a)).collect::<Vec<_>>(),
                             "built_by": match b.shape { Shape::NoEdge => "update_local_trust(n_i, n_{i+1 mod n}, false) for all i", Shape::Ring => "update_local_trust(n_i, n_{i+1 mod n}, true)", Shape::StarIn => "update_local_trust(n_i, n0, true) for i>=1", Shape::StarOut => "update_local_trust(n0, n_i, true) for i>=1", Shape::Chain => "update_local_trust(n_i, n_{i+1}, true) for i<n-1", Shape::Clique => "update_local_trust(n_i, n_j, true) for all i != j" }},
@@ -852,19 +979,8 @@ fn main() {
             let mut rev = bops.clone();
             rev.reverse();
             let rank = vec![2, b.n as usize, bi];
-            block_on(async {
-                if let (Ok(x), Ok(y)) = (replay(&cx, &b.anchors, &bops, false).await, replay(&cx, &b.anchors, &rev, false).await) {
-                    cx.distinct.eval();
-                    if let Some((k, u, w)) = maps_differ(&x.cur, &y.cur, TOL_EQUAL) {
-                        let path = if x.fell_back || y.fell_back { "timeout-fallback" } else { "computed" };
-                        cx.col.offer("C10.equal", feats(&[("shape", "same-reports-different-order-different-scores".into()), ("path", path.into())]), &rank, || {
-                            (json!({"history": describe(None), "second_history": "the same statements in reverse order", "computed_1": map_json(&x.cur, nm), "computed_2": map_json(&y.cur, nm)}), format!("{}: {u} vs {w}", nm(k)))
-                        });
-                    }
-                    let h = || describe(None);
-                    judge_map(&cx, &rank, &x.r, &x.cur, x.fell_back, &x.queried, nm, &h);
-                }
-            });
+            let d = || json!({"history_1": describe(None), "history_2": "the same statements in reverse order"});
+            block_on(judge_same_statements(&cx, &rank, &b.anchors, &bops, &rev, nm, &d));
         }
         for (ei, ext) in exts.iter().enumerate() {
             if budget.exceeded() {
@@ -875,50 +991,11 @@ fn main() {
             h.push(*ext);
             let rank = vec![2, b.n as usize, bi, ei];
             let hist = || describe(Some(ext));
-            block_on(async {
-                // compute on the base, apply the extension, compute again (same engine)
-                let e = EigenTrustEngine::new(b.anchors.iter().map(|a| nid(*a)).collect::<HashSet<_>>());
-                let mut r = Ref::default();
-                for a in &b.anchors {
-                    r.anchors.insert(*a);
-                    r.anchors_ever = true;
-                }
-                let res: Result<(), (String, String)> = async {
-                    for op in &bops {
-                        apply(&e, op).await.map_err(|m| (entry_name(op), m))?;
-                        r.apply(op);
-                    }
-                    let (prev, _) = compute(&cx, &e).await.map_err(|m| ("compute_global_trust".to_string(), m))?;
-                    let r_before = r.clone();
-                    apply(&e, ext).await.map_err(|m| (entry_name(ext), m))?;
-                    r.apply(ext);
-                    let (cur, fell_back) = compute(&cx, &e).await.map_err(|m| ("compute_global_trust".to_string(), m))?;
-                    let mut queried: Vec<(u32, f64)> = Vec::with_capacity(cur.len() + 1);
-                    for k in cur.keys() {
-                        let id = nid(*k);
-                        queried.push((*k, catch(|| e.get_trust(&id)).map_err(|m| ("get_trust".to_string(), m))?));
-                    }
-                    queried.push((UNKNOWN, catch(|| e.get_trust(&nid(UNKNOWN))).map_err(|m| ("get_trust".to_string(), m))?));
-                    judge_map(&cx, &rank, &r, &cur, fell_back, &queried, nm, &hist);
-                    judge_edge(&cx, &rank, &r_before, ext, &prev, &cur, nm, &hist);
-                    match ext {
-                        Op::Stat(_, pl @ (Stat::Failed | Stat::Unavailable)) => failed_map.push((*pl, cur.clone())),
-                        Op::Stat(_, Stat::Corrupted | Stat::Violation) => {
-                            for (pl, f) in &failed_map {
-                                judge_severity(&cx, &rank, ext, *pl, f, &cur, nm, &hist);
-                            }
-                        }
-                        _ => {}
-                    }
-                    let pscore = cur.get(&p).map(|v| (v * 1e9).round() as i64);
-                    cx.distinct.outcome(&("family", format!("{:?}", b.shape), b.n, b.anchors.len(), entry_name(ext), pscore));
-                    Ok(())
-                }
-                .await;
-                if let Err((entry, msg)) = res {
-                    cx.col.offer("C10.nopanic", feats(&[("entry", entry.clone())]), &rank, || (json!({"history": hist(), "panic": msg}), format!("{entry} panicked: {msg}")));
-                }
-            });
+            // compute on the base, apply the extension, compute again (same engine)
+            if let Some(rp) = block_on(analyse(&cx, &rank, &b.anchors, &h, bops.len(), nm, &hist)) {
+                let pscore = rp.cur.get(&p).map(|v| (v * 1e9).round() as i64);
+                cx.distinct.outcome(&("family", format!("{:?}", b.shape), b.n, b.anchors.len(), entry_name(ext), pscore));
+            }
             fam_done.fetch_add(1, Ordering::Relaxed);
             if ei == 0 && bi % 97 == 0 {
                 let mut s = fam_samples.lock().unwrap();
